@@ -201,6 +201,8 @@ OpSetSelected(D, S, v, names) ==
   ELSE SelLoop(D, Fresh(S), v, 1, names)
 (* reading a value through the public attribute runs the Read handlers *)
 OpRead(D, S, v, e) == ReadVal(D, Fresh(S), v, e)
+\* Element.reset_value: the driver stores a value it obtained itself; nothing is published and no event is raised
+OpReset(D, S, v, e, x) == [Fresh(S) EXCEPT !.val[v][e] = x]
 (* a later loop iteration runs the oldest pending coroutine handler *)
 OpRunTask(D, S) ==
   LET t == Head(S.tasks)
